@@ -20,7 +20,30 @@ RULE = ("plans generated from mix(VERIF_SEED, i) by the %s generator (swarm shap
         "executed on the real daemon under the simulated kernel; a run is non-trivial when >=1 injected fault fired and >=1 "
         "model expectation was compared against an observed delivery; distinct = distinct FNV trace hash of the full event log")
 
+SIMLIB_COMPONENTS = {
+    "real": ["dbus/*.c: DBusServer, DBusConnection, socket transport, SASL (dbus-auth.c), message loader, validators, marshalling, iterators, pending calls, object tree, DBusLoop"],
+    "stub": ["Linux kernel (AF_UNIX sockets, poll, clocks, credentials) — sim/kernel", "the wire peer — scripted actor on the independent codec",
+             "the application around libdbus — the harness (watch/timeout callbacks on DBusLoop, filters, handlers)"],
+}
+SIMLIB_ASSUME = [
+    "kernel stub models Linux AF_UNIX stream semantics (sim/kernel/kernel.cc)",
+    "independent wire codec written from doc/dbus-specification.xml is the oracle (sim/codec)",
+    "build mirrors the pinned test configuration (embedded tests on)",
+    "sampling, not enumeration: a clean batch is evidence over the sampled plans only",
+]
+
+def simlib(prop, rule, quick_s=45, thorough_s=600, probes=(), safety_prop=None, level="exploration"):
+    return {"binary": "simlib", "prop": prop, "level": level, "quick_s": quick_s, "thorough_s": thorough_s, "rule": rule,
+            "probes": list(probes), "components": SIMLIB_COMPONENTS, "assumptions": SIMLIB_ASSUME, "safety_prop": safety_prop or prop}
+
+LRULE = ("plans generated from mix(VERIF_SEED, i) by the %s generator; executed on the real libdbus endpoint under the simulated kernel; a run is non-trivial when faults fired or the "
+         "delivery was cut into several steps and >=1 message was compared against the independent decoding; distinct = distinct FNV trace hash of the full event log")
+
 CHECKS = {
+    "C01": simlib("C01", LRULE % "C01 stream (0-6 structurally generated valid messages of every type/field/nesting shape and both byte orders, targeted shapes, optionally one single-site corruption — structural or byte-level — then more bytes; random max_message_size; arrival chunking, short reads, EINTR, allocation failure inside the loader)",
+                  probes=["stream_with_invalid_message", "multi_message_stream", "oom_fired"]),
+    "C11": simlib("C11", LRULE % "C11 stream (1-8 valid messages of mixed sizes and byte orders, optionally an invalid one and further bytes; handshake and first message in one write or apart; partitions: all-one-byte, single cut, header-biased cuts, random cuts; independent read-size knob; unsplit fault-free control delivery in the same run)",
+                  probes=["stream_with_invalid_message", "multi_message_stream"]),
     "SMOKE": simbus("SMOKE", RULE % "smoke", quick_s=5, thorough_s=10),
     "C03": simbus("C03", RULE % "C03 (Hello irregularities, forged SENDER / unknown fields / container-instance, reconnects, minor-number wrap)",
                   probes=["forged_sender_seen", "unknown_field_seen", "message_before_hello", "second_hello"]),
@@ -117,6 +140,27 @@ MANIFEST_TEXT = {
                "dbus_malloc blocks and descriptors must be back at baseline after shutdown. Library-side operations (message build/copy/edit, rule and config parsing) are not yet covered.",
                "DESIGN.md section 4 C14", "deterministic re-execution with exhaustive enumeration of the failing allocation index per sampled (history, operation)",
                note=_SIMBUS_NOTE + " Exhaustive in k for each sample; histories and operations are sampled. Six genuine OOM-atomicity defects of the daemon are listed in known_findings.json and reported as KNOWN-FINDING."),
+    "C01": _mt("Seeded search over byte streams through the real connection loader (DBusServer + accepted DBusConnection, the path the property names first): 0-6 structurally generated "
+               "valid messages of every type / header-field / nesting shape in both byte orders, targeted boundary shapes, optionally one single-site corruption (structural: serial 0, "
+               "bad version, duplicate / wrong-typed / missing / zero-code field, bad path / interface / member / bus name, bad UTF-8, boolean 2 alone and inside arrays, body-signature "
+               "mismatch, fixed array of fractional length, mis-bracketed signature value; byte-level: bit flips, length words +-1 and at limit values, endianness byte, insertions, "
+               "truncation, trailing bytes), a configured max_message_size, arrival in arbitrary chunks with short reads / EINTR / spurious EAGAIN and allocation failures inside the "
+               "loader. The independent codec decides which prefix of the stream is valid: exactly those messages must be produced, byte-identical when re-marshalled, and every header "
+               "field and body value read through the public getters and iterators (incl. fixed-array access) must equal the independent decoding; an invalid message must get the "
+               "connection declared corrupt, nothing after it is produced; dbus_message_demarshal / _bytes_needed must agree on every single message; ASan/UBSan and a termination "
+               "watchdog cover memory safety and non-termination. This is generated-input differential checking carried out through the simulated transport (DESIGN.md says so).",
+               "DESIGN.md section 4 C01, appendix G", "deterministic simulation of the transport with input generation and fault injection; independent-codec oracle + sanitizers",
+               note="Trusted base: the independent wire codec (sim/codec, written from the specification and differential-tested), the simulated kernel, the harness's application glue. "
+                    "Real code: all of dbus/*.c under ASan+UBSan. Two places where libdbus is laxer than the specification are listed as known findings (unique names without a period; "
+                    "dict-entry nesting budget). Sampling over seeds: evidence, not proof."),
+    "C11": _mt("Seeded search over partitions: streams of 1-8 valid messages of mixed sizes and byte orders, optionally followed by an invalid message and further bytes, are delivered to "
+               "the real loader through the simulated socket in all-one-byte, single-cut, header-biased and random partitions, with the handshake-to-message boundary inside or outside "
+               "one write, an independent per-read size limit (knob), short reads, EINTR, spurious readiness and allocation failures; in the same run the same stream is delivered to a "
+               "second connection unsplit and fault-free. Oracle (metamorphic + codec): both deliveries produce the same message sequence (byte-identical) and the same corruption "
+               "verdict, every message complete before the first invalid one is delivered, none after.",
+               "DESIGN.md section 4 C11", "deterministic simulation, seeded search over stream partitions and read schedules, metamorphic oracle",
+               note="Trusted base: simulated kernel stream semantics, independent codec. The writer side (partial writes of queued outgoing messages) is exercised by every simbus check "
+                    "(short-write / EAGAIN faults on the daemon's sockets, small peer buffers), where a corrupted outgoing stream fails the codec at the receiving actor. Sampling: evidence, not proof."),
 }
 
 NOT_APPLICABLE = [
@@ -126,6 +170,6 @@ NOT_APPLICABLE = [
 ]
 
 # properties whose check is planned but not finished: not claimed, and listed in not_applicable with that reason
-NOT_CLAIMED_YET = ["C01", "C08", "C11", "C15", "C17", "C19", "C20"]
+NOT_CLAIMED_YET = ["C08", "C15", "C17", "C19", "C20"]
 for _p in NOT_CLAIMED_YET:
     NOT_APPLICABLE.append({"property_id": _p, "reason": "not claimed yet: the simulation check for this property is designed (DESIGN.md section 4) but not finished; it is applicable to the technique and will be claimed when its check passes the determinism and sensitivity gates"})
